@@ -170,20 +170,35 @@ func VerifC19Concurrent() {
 		vAssert(false, "C19.conc.setup: saving the initial configuration failed")
 		return
 	}
-	pair := vChoice("pair", vBound("c19.pairs", 2))
+	pair := vChoice("pair", vBound("c19.pairs", 3))
+	if pair == 2 { // two deletes: the file holds old, mid, last
+		if err := setConfig(fname, vMustURL("http://x/?config=mid&f=fm")); err != nil {
+			return
+		}
+		if err := setConfig(fname, vMustURL("http://x/?config=last&f=fl")); err != nil {
+			return
+		}
+	}
 	var wg sync.WaitGroup
 	wg.Add(2)
 	var e1, e2 error
 	go func() {
 		defer wg.Done()
+		if pair == 2 {
+			e1 = removeConfig(fname, "old")
+			return
+		}
 		e1 = setConfig(fname, vMustURL("http://x/?config=a&f=fa"))
 	}()
 	go func() {
 		defer wg.Done()
-		if pair == 0 {
+		switch pair {
+		case 0:
 			e2 = setConfig(fname, vMustURL("http://x/?config=b&f=fb"))
-		} else {
+		case 1:
 			e2 = removeConfig(fname, "old")
+		default:
+			e2 = removeConfig(fname, "mid")
 		}
 	}()
 	wg.Wait()
@@ -197,10 +212,13 @@ func VerifC19Concurrent() {
 		return
 	}
 	var serial bool
-	if pair == 0 {
+	switch pair {
+	case 0:
 		serial = vEqStrs(names, []string{"old", "a", "b"}) || vEqStrs(names, []string{"old", "b", "a"})
-	} else {
+	case 1:
 		serial = vEqStrs(names, []string{"a"})
+	default:
+		serial = vEqStrs(names, []string{"last"})
 	}
 	vAssert(serial, "sched:C19.conc.lost-update: two concurrent requests both reported success but the result equals neither serial order")
 }
